@@ -54,6 +54,17 @@ CHECKS = [
            'files get the same treatment. Comparison is field-wise and type-sensitive, never the class\'s own __eq__.',
       note='Coverage is all singles/pairs/all-set of the value domains listed in checks/c03.py, not all subsets; value domains are '
            'representative (zero/false/empty/extreme/non-ASCII/quoted), not all strings.'),
+ dict(property_id='C16', engine='E2-enum', level='exploration',
+      technique='model checking: exhaustive enumeration of short strings over field alphabets plus complete edit-distance-1 neighbourhoods of seeds, through every entry point, against hand-written recognisers',
+      text='For each of the 17 validated label fields every string over a field-specific alphabet up to length 3-5 (quick) / 4-6 (thorough) '
+           'and every deletion/substitution/insertion neighbour of seed members and boundary numbers is pushed through 15 entry points '
+           '(constructor, bulk setter, copy-with-changes, seven list shapes, decoding of scalar and list text, delegation details, '
+           'model-element update). A recogniser written without regular expressions decides membership in the documented language; '
+           'outside => every entry point raises and nothing is stored, inside => accepted, stored verbatim, re-decodable. Tags, element '
+           'names of all five sliver classes (setters, creation, rename, assignment), boot script and JSON blob limits and capacity values '
+           'get the same two-sided treatment.',
+      note='Long formats are covered to edit distance 1 around seeds, not over all strings; candidate alphabets are mostly ASCII. numa '
+           '(no pattern) is decided only for canonical decimals. Exact size limits are left unspecified (limit-1 / limit+1 are decided).'),
 ]
 _claimed = {c['property_id'] for c in CHECKS}
 NOT_APPLICABLE = [dict(property_id=p, reason='check not built yet in this revision (work in progress; model checking applies, see DESIGN.md)')
